@@ -53,6 +53,10 @@ func main() {
 		pprof.StartCPUProfile(f)
 		defer pprof.StopCPUProfile()
 	}
+	if strings.HasSuffix(fl.Sub, "real") {
+		realMain(fl)
+		return
+	}
 	res := vlib.New("e1:" + fl.Sub)
 	r := &runner{logDir: filepath.Join(fl.Work, "logs"), horizon: 20000, states: map[uint64]struct{}{}}
 	deadline := time.Now().Add(time.Duration(envInt("VERIF_E1_BUDGET_S", 1500)) * time.Second)
